@@ -48,6 +48,24 @@ def observed(text, want=None):
         return "UNOBSERVABLE " + type(ex).__name__ + ": " + str(ex)[:80]
 
 
+def reverse_within_ticks(text):
+    import re
+    nl = "\r\n" if "\r\n" in text else "\n"
+    out, run, cur = [], [], None
+    for l in text.split(nl):
+        m = re.match(r"\s*(\d+) = [NSE] ", l)
+        t = m.group(1) if m else None
+        if t is not None and t == cur:
+            run.append(l)
+            continue
+        out += run[::-1]
+        run, cur = ([l], t) if t is not None else ([], None)
+        if t is None:
+            out.append(l)
+    out += run[::-1]
+    return nl.join(out)
+
+
 def fresh(cases, flags=()):
     env = dict(os.environ)
     p = subprocess.run(["/venv/bin/python", *flags, "-c", FRESH, str(fw.REPO), str(fw.ROOT)], input=json.dumps(cases).encode(),
@@ -81,14 +99,17 @@ def corpus(ctx):
     base = [c for c in cases if c[0].isprintable() or True][:5]
     base.append(("[Song]\n{\n  Resolution = 192\n  Name = \"Caf\u00e9 \u212bngstr\u00f6m \ufb01n\"\n  Artist = \"\u30cf\u3099nd \uff21\"\n  Charter = \"Zo\u00eb\"\n}\n"
                  "[SyncTrack]\n{\n  0 = TS 4\n  0 = B 120123\n  192 = B 98765\n}\n[Events]\n{\n  0 = E \"section Caf\u00e9\"\n  96 = E \"lyric \u00e9\u0301-\"\n"
-                 "  192 = E \"\u00c5 text\"\n}\n[ExpertSingle]\n{\n  0 = N 0 0\n  96 = E \u00e9\n  96 = N 1 10\n}\n", None))
+                 "  192 = E \"\u00c5 text\"\n}\n[ExpertSingle]\n{\n  0 = N 0 0\n  96 = E \u00e9\n  96 = N 1 10\n  200 = N 0 0\n  200 = N 7 0\n  300 = N 7 5\n  300 = N 2 9\n  300 = N 6 0\n"
+                 "  400 = N 3 0\n  400 = N 1 0\n  400 = N 5 0\n  500 = S 2 10\n  500 = S 2 20\n}\n", None))
     cases.append(base[-1])
     respells = (lambda t: unicodedata.normalize("NFD", t), lambda t: unicodedata.normalize("NFC", t), lambda t: unicodedata.normalize("NFKC", t),
                 lambda t: re.sub(r"(?m)$", "  ", t), lambda t: re.sub(r"(?m)^  ", "\t", t),
                 lambda t: re.sub(r'"[^"\n]*"', lambda m: m.group().swapcase(), t), lambda t: re.sub(r"[\u200b-\u200f\u2060\ufeff]", "", t),
                 # numbers respelled the way other number parsers read them: a decimal point, leading zeros
                 lambda t: re.sub(r"(?m)^(\s*\d+ = [NS] \d+ )(\d+)$", r"\g<1>\g<2>.0", t), lambda t: re.sub(r"(?m)^(\s*)(\d+) = ", r"\g<1>000\g<2> = ", t),
-                lambda t: re.sub(r"(?m)^(\s*\d+ = [NS] \d+ )(\d+)$", r"\g<1>00\g<2>", t))
+                lambda t: re.sub(r"(?m)^(\s*\d+ = [NS] \d+ )(\d+)$", r"\g<1>00\g<2>", t),
+                # the lines of every tick in the opposite order (what one order gives must not be remembered for the other)
+                reverse_within_ticks)
     # kind by kind, so that the reference parses (a few charts per fresh interpreter, in corpus order) never put two spellings of one
     # chart into the same interpreter; in the first history every twin still comes after its original
     def pad():
@@ -262,6 +283,34 @@ def paths(ctx, out, cases):
                               f"read of the same file and selection: {p_[:100]!r} vs {q_[:100]!r}",
                               {"op": "path-history", "text": p.read_text(encoding='utf-8'), "plan": [[w] for _, w in plan[: pos + 1]]}, observed=q_, promised=p_)
                 break
+        # the files are saved again the way editors do it (a temporary file moved over the path), in place, and by truncating: the path
+        # now names other text, and reading it gives what that text gives
+        import os
+        texts = [p.read_text(encoding="utf-8") for p, _ in files]
+        for k, (p, present) in enumerate(files):
+            new = texts[(k + 1) % len(files)]
+            if k % 3 == 0:
+                tmp = p.with_suffix(".tmp")
+                tmp.write_text(new, encoding="utf-8")
+                os.replace(tmp, p)
+            elif k % 3 == 1:
+                with open(p, "r+", encoding="utf-8") as f:
+                    f.seek(0)
+                    f.write(new)
+                    f.truncate()
+            else:
+                p.unlink()
+                p.write_text(new, encoding="utf-8")
+            try:
+                x = impl.dump_chart(Chart.from_filepath(p), [])
+            except Exception as e:  # noqa: BLE001
+                x = impl.err_name(e)
+            ref = impl.run_chart(new).split("|W ")[0]
+            out.case(fw.h(["resave", k]), True, None, tags=["path-resaved"])
+            if x.split("|W ")[0] != ref:
+                p_, q_ = fw.first_diff(ref, x.split("|W ")[0])
+                out.violation("resave-" + fw.h([k, new]), f"a file saved again ({['moved over the path', 'rewritten in place', 'deleted and written'][k % 3]}) and read by path gives "
+                              f"{q_[:100]!r}, its text read from a stream {p_[:100]!r}", {"op": "resave", "old": texts[k], "new": new, "how": k % 3}, observed=q_, promised=p_)
 
 
 def wrapped(ctx, out):
@@ -290,6 +339,28 @@ def wrapped(ctx, out):
 
 
 def replay(ctx, data):
+    if data.get("op") == "resave":
+        import os
+        import tempfile
+        from pathlib import Path
+
+        from chartparse.chart import Chart
+        with tempfile.TemporaryDirectory() as td:
+            p = Path(td) / "f.chart"
+            p.write_text(data["old"], encoding="utf-8")
+            try:
+                Chart.from_filepath(p)
+            except Exception:  # noqa: BLE001
+                pass
+            tmp = p.with_suffix(".tmp")
+            tmp.write_text(data["new"], encoding="utf-8")
+            os.replace(tmp, p)
+            try:
+                x = impl.dump_chart(Chart.from_filepath(p), [])
+            except Exception as e:  # noqa: BLE001
+                x = impl.err_name(e)
+        ref = impl.run_chart(data["new"]).split("|W ")[0]
+        return x.split("|W ")[0] != ref, str(fw.first_diff(ref, x))[:300]
     if data["op"] == "history":
         cases = [(c[0], c[1]) for c in data["cases"]]
         last = None
